@@ -1,0 +1,84 @@
+//go:build verif
+
+package index
+
+import (
+	"sort"
+
+	"github.com/grafana/regexp"
+
+	"github.com/sourcegraph/zoekt"
+	"github.com/sourcegraph/zoekt/query"
+)
+
+// Verification hooks for property C04 (search results do not depend on earlier searches).
+// Not part of the normal build.
+
+// VerifC04CacheEntry is one entry of a shard's docMatchTreeCache as an outside observer sees it.
+type VerifC04CacheEntry struct {
+	KeyField  string // docMatchTreeCacheKey.field
+	KeyValue  string // docMatchTreeCacheKey.value (the checksum)
+	FirstDone bool   // cursor of the cached node
+	DocID     uint32 // cursor of the cached node
+	NumDocs   uint32
+	Pred      []bool // predicate of the cached node evaluated on every document of the shard
+}
+
+// VerifC04CacheDump returns the entries of the docMatchTreeCache of a single-shard searcher (sorted by key) and the
+// cache's capacity. ok is false if s is not an *indexData.
+func VerifC04CacheDump(s zoekt.Searcher) (entries []VerifC04CacheEntry, maxEntries int, ok bool) {
+	d, isData := s.(*indexData)
+	if !isData {
+		return nil, 0, false
+	}
+	c := d.docMatchTreeCache
+	c.mu.RLock()
+	defer c.mu.RUnlock()
+	for k, mt := range c.cache {
+		e := VerifC04CacheEntry{KeyField: k.field, KeyValue: k.value, FirstDone: mt.firstDone, DocID: mt.docID, NumDocs: mt.numDocs}
+		n := uint32(len(d.repos))
+		for i := uint32(0); i < n; i++ {
+			e.Pred = append(e.Pred, mt.predicate(i))
+		}
+		entries = append(entries, e)
+	}
+	sort.Slice(entries, func(i, j int) bool {
+		if entries[i].KeyField != entries[j].KeyField {
+			return entries[i].KeyField < entries[j].KeyField
+		}
+		return entries[i].KeyValue < entries[j].KeyValue
+	})
+	return entries, c.maxEntries, true
+}
+
+// VerifC04MetaChecksum is queryMetaChecksum.
+func VerifC04MetaChecksum(field string, value *regexp.Regexp) string {
+	return queryMetaChecksum(field, value)
+}
+
+// VerifC04Layout returns, in document order, the file names and repository indexes of a single-shard searcher, and the
+// repository names in repository-index order.
+func VerifC04Layout(s zoekt.Searcher) (fileNames []string, repos []uint16, repoNames []string, ok bool) {
+	d, isData := s.(*indexData)
+	if !isData {
+		return nil, nil, nil, false
+	}
+	for i := uint32(0); i < uint32(len(d.fileBranchMasks)); i++ {
+		fileNames = append(fileNames, string(d.fileName(i)))
+	}
+	repos = append(repos, d.repos...)
+	for i := range d.repoMetaData {
+		repoNames = append(repoNames, d.repoMetaData[i].Name)
+	}
+	return fileNames, repos, repoNames, true
+}
+
+// VerifC04Prepared returns the query that indexData.Search hands to newMatchTree: the shard-level simplification of q
+// followed by the file/content expansion.
+func VerifC04Prepared(s zoekt.Searcher, q query.Q) (query.Q, bool) {
+	d, isData := s.(*indexData)
+	if !isData {
+		return nil, false
+	}
+	return query.Map(d.simplify(q), query.ExpandFileContent), true
+}
